@@ -31,13 +31,16 @@ class C12Src(SrcWorld):
     name = "SRC-C12"
 
     def init_model(self, st):
-        st.m = {"covered": 0, "cancelled": None, "tid": False, "done": False, "ncancel": 0, "by_fault": False}
+        st.m = {"covered": 0, "cancelled": None, "tid": False, "done": False, "ncancel": 0, "by_fault": False, "nnak": 0}
 
     def enabled(self, st):
         step = st.S.h.states.step.name
         evs = [("tick",)]
         if st.m["ncancel"] < 2:
             evs += [("cancel", "right"), ("cancel", "wrong")]
+        if self.c["mode"] == "ack" and st.m["nnak"] < 2 and step in ("SENDING_FILE_DATA", "RETRANSMITTING", "WAITING_FOR_EOF_ACK", "WAITING_FOR_FINISHED") \
+                and st.m["covered"] > 0:
+            evs.append(("nak", ((0, min(st.m["covered"], eff_seg(self.c))),)))  # a valid retransmission request, before or after the cancel
         if step == "WAITING_FOR_EOF_ACK":
             evs.append(("ackeof", "CANCEL_REQUEST_RECEIVED" if st.m["cancelled"] else "NO_ERROR"))
         if step == "WAITING_FOR_FINISHED":
@@ -56,6 +59,8 @@ class C12Src(SrcWorld):
         if self.inds(out, "transaction"):
             m["tid"] = True
         emitted = self.emitted(out)
+        if ev[0] == "nak":
+            m["nnak"] += 1
         if ev[0] == "cancel":
             m["ncancel"] += 1
             if out.get("ret") is True and m["cancelled"] is None:
@@ -63,7 +68,7 @@ class C12Src(SrcWorld):
                 m["cancelled"] = eofs[0] if eofs else {"T": "none"}
         elif m["cancelled"] is None:
             for d in emitted:
-                if d["T"] == "FD":
+                if d["T"] == "FD" and ev[0] != "nak":  # File Data emitted by a NAK call is a retransmission
                     m["covered"] += len(d["data"]) // 2
             if any(f["fault"] in ("cancel", "abandon") for f in self.faults(out)):
                 # cancelled by a declared fault (e.g. positive ACK limit): not a Cancel.request; C04/C14 judge it
@@ -101,8 +106,8 @@ class C12Src(SrcWorld):
                 else:
                     self._judge_eof(st, emitted[0], pre["covered"], bad, first=True)
                 for d in emitted[1:]:
-                    if d["T"] == "FD":
-                        bad("C12.file_data_after_cancel", f"File Data at {d['off']} emitted after the cancel request")
+                    if d["T"] == "FD" and d["off"] + len(d["data"]) // 2 > pre["covered"]:
+                        bad("C12.file_data_after_cancel", f"new File Data at {d['off']} emitted after the cancel request")
             if not want and emitted:
                 bad("C12.refused_cancel_effect", f"refused cancel request emitted {[d['T'] for d in emitted]}")
             return v
@@ -110,8 +115,8 @@ class C12Src(SrcWorld):
             bad("C12.exception", f"{e['exc']} in {e['site']}", exc=e["exc"], site=e["site"])
         if pre["cancelled"] is not None and not pre["by_fault"]:
             for d in emitted:
-                if d["T"] == "FD":
-                    bad("C12.file_data_after_cancel", f"File Data at {d['off']} emitted after the cancel request")
+                if d["T"] == "FD" and d["off"] + len(d["data"]) // 2 > pre["covered"]:
+                    bad("C12.file_data_after_cancel", f"new File Data at {d['off']} emitted after the cancel request")
                 elif d["T"] == "EOF":
                     self._judge_eof(st, d, pre["covered"], bad, first=False)
         return v
